@@ -5,7 +5,7 @@ from pipes import string
 def run(tier, rep):
     string.pipeline(tier, rep)
     rep.assumptions += [
-        "characters are the codes {0, 97, 98, 200}: embedded null, ordinary letters and one code >= 128 stand for all characters",
+        "characters are the codes {0, 97, 98, 200}: embedded null, ordinary letters and one code >= 128 stand for all characters; wide instantiations map the model codes onto characters with colliding low bytes (wchar_t: 200->0x161, 98->0x100; char16_t: 200->0x100; char32_t: 200->0x10061, 98->0x100; order preserved), 1-byte types use the codes themselves",
         "exhaustive only inside the model: capacities 0..3 (thorough 0..4), every string over {0, 97, 200} as the object under test, a small fixed set of caller buffers / argument strings, boundary positions and counts {0, 1, size-1, size, size+1, npos}; calls that do not involve the second object are explored from the states where it is empty",
         "capacities 7, 15 (size kept in the last byte) and 16, 31, 255, 256 (separate size field) are reached by seeded random histories that hover near full, not exhaustively",
         "results that do not fit the capacity are judged by the invariant only (size() <= capacity(), data()[size()] == 0, strlen(c_str()) consistent); what a clamping operation keeps is not checked",
